@@ -24,6 +24,13 @@ package main
 // does not build without it.
 //	stress <seed> <G> <rounds> <mode>   free-running goroutines, recorded histories, monitors
 //	                            evaluated here; observation "ok" or the first failing monitor.
+//	                            Besides Add/GetLeafValue/Query/Delete/Leaf.Update/Leaf.Value the
+//	                            goroutines call Walk and WalkSorted (recorded as the query nil;
+//	                            WalkSorted must report in path order) and IsBranch/Value/Children
+//	                            on the root and on nodes handed out by Get (doNode), concurrently
+//	                            with the writers: the read-side operations of
+//	                            Model/CTreeConcX.lean (theorems Props/C10Safe.lean: never_panics,
+//	                            no_deadlock_wp, every_op_completes, walk_reports_sound).
 //
 // The Lean driver (lean/Driver/CC.lean) runs the same schedules on the LTS of
 // Model/CTreeConc.lean and must print the same observations; for `stress` it prints "ok"
@@ -834,7 +841,7 @@ func (c *ccComp) stress(seed int64, G, rounds int, mode string) (verdict string)
 		}
 		hist := make([][]*ccOp, G)
 		newH := make([][]ccHandle, G)
-		var panicked int32
+		var panicked, unsorted, nodeBad int32
 		start := make(chan struct{})
 		var wg sync.WaitGroup
 		hsnap := append([]ccHandle(nil), handles...)
@@ -911,6 +918,65 @@ func (c *ccComp) stress(seed int64, G, rounds int, mode string) (verdict string)
 					o.resp = tick()
 					rec(o)
 				}
+				// Walk / WalkSorted: recorded as the query `nil` (same monitor: query stability);
+				// WalkSorted additionally has to report in lexicographic path order
+				doWalk := func(sorted bool) {
+					o := &ccOp{g: g, kind: "query", path: nil, seen: map[string]int{}}
+					var prev []string
+					first := true
+					f := func(p []string, l *ctree.Leaf, v interface{}) error {
+						k := ccKey(p)
+						if _, dup := o.seen[k]; dup {
+							o.dupKey = true
+						}
+						o.seen[k] = v.(int)
+						if sorted {
+							if !first && !ccPathLess(prev, p) {
+								atomic.StoreInt32(&unsorted, 1)
+							}
+							prev, first = cloneStrs(p), false
+						}
+						return nil
+					}
+					o.inv = tick()
+					if sorted {
+						t.WalkSorted(f)
+					} else {
+						t.Walk(f)
+					}
+					o.resp = tick()
+					rec(o)
+				}
+				// IsBranch / Value / Children on the root or on the node Get(p) hands out (the read-side
+				// node operations of Model/CTreeConcX.lean).  Children on a retained non-root BRANCH
+				// node used to be called only when no delete ran in the round (branchOK): that
+				// combination was the finding C10Safe.children_on_branch_races (a map iteration against
+				// internalDelete's map write), repaired in /repo by 8e5fd17 — it now runs in every round.
+				// Monitors: no panic, no deadlock, no race report, and the answers of one node are
+				// consistent with its kind.
+				doNode := func(p []string, branchOK bool) {
+					n := t
+					if len(p) > 0 {
+						n = t.Get(p)
+					}
+					br := n.IsBranch()
+					v := n.Value()
+					if n != t && br && v != nil {
+						atomic.StoreInt32(&nodeBad, 1) // a non-root node never changes its kind
+					}
+					_ = branchOK
+					{
+						ch := n.Children()
+						if n != t && !br && ch != nil {
+							atomic.StoreInt32(&nodeBad, 1)
+						}
+						for _, c := range ch {
+							if c == nil {
+								atomic.StoreInt32(&nodeBad, 1)
+							}
+						}
+					}
+				}
 				<-start
 				switch rtype {
 				case "fresh":
@@ -926,14 +992,26 @@ func (c *ccComp) stress(seed int64, G, rounds int, mode string) (verdict string)
 					if per > 2 && r.Intn(2) == 0 {
 						doGet(append(cloneStrs(base), fmt.Sprintf("g%d", (g+1)%G)))
 					}
+					if g%3 == 0 {
+						doNode(base[:r.Intn(len(base)+1)], true)
+					}
 				case "mixed":
 					for i := 0; i < per; i++ {
 						switch x := r.Intn(100); {
 						case x < 40:
 							doAdd(univ(r))
 						case x < 55:
-							doGet(univ(r))
+							if x%3 == 0 {
+								p := univ(r)
+								doNode(p[:r.Intn(len(p)+1)], false)
+							} else {
+								doGet(univ(r))
+							}
 						case x < 75:
+							if x%4 == 0 {
+								doWalk(x%8 == 0)
+								break
+							}
 							q := ccLit(r, 2)
 							if r.Intn(2) == 0 {
 								q[r.Intn(len(q))] = "*"
@@ -957,9 +1035,18 @@ func (c *ccComp) stress(seed int64, G, rounds int, mode string) (verdict string)
 						case x < 30:
 							doAdd(univ(r))
 						case x < 45:
-							doGet(univ(r))
+							if x%2 == 0 {
+								p := univ(r)
+								doNode(p[:r.Intn(len(p)+1)], true)
+							} else {
+								doGet(univ(r))
+							}
 						case x < 60:
-							doQuery(ccLit(r, 1), true)
+							if x%5 == 0 {
+								doWalk(x%2 == 0)
+							} else {
+								doQuery(ccLit(r, 1), true)
+							}
 						case x < 85:
 							if len(hsnap) > 0 {
 								doHupd(hsnap[r.Intn(len(hsnap))])
@@ -979,7 +1066,17 @@ func (c *ccComp) stress(seed int64, G, rounds int, mode string) (verdict string)
 						doDel(nil)
 					} else {
 						doAdd(univ(r))
-						doQuery(nil, false)
+						switch g % 4 {
+						case 1:
+							doWalk(false)
+						case 2:
+							doWalk(true)
+						case 3:
+							doNode(nil, false)
+							doQuery(nil, false)
+						default:
+							doQuery(nil, false)
+						}
 					}
 				case "hd":
 					// handle updates concurrent with deletes (must be race free: regression for D15)
@@ -1006,7 +1103,9 @@ func (c *ccComp) stress(seed int64, G, rounds int, mode string) (verdict string)
 							doQuery(ccLit(r, 1), true)
 						default:
 							if len(hsnap) > 0 {
-								doHval(hsnap[r.Intn(len(hsnap))])
+								h := hsnap[r.Intn(len(hsnap))]
+								doHval(h)
+								doNode(h.path, false) // Tree.Value / IsBranch / Children on the (leaf) node
 							}
 						}
 					}
@@ -1035,6 +1134,12 @@ func (c *ccComp) stress(seed int64, G, rounds int, mode string) (verdict string)
 		}
 		if atomic.LoadInt32(&panicked) != 0 {
 			return "panic"
+		}
+		if atomic.LoadInt32(&unsorted) != 0 {
+			return "walksorted-unsorted"
+		}
+		if atomic.LoadInt32(&nodeBad) != 0 {
+			return "node-op-inconsistent"
 		}
 		final := ccSnapshot(t)
 		var all []*ccOp
@@ -1102,6 +1207,16 @@ func (c *ccComp) stress(seed int64, G, rounds int, mode string) (verdict string)
 		}
 	}
 	return "ok"
+}
+
+// ccPathLess: strict lexicographic order on paths (the order of WalkSorted)
+func ccPathLess(a, b []string) bool {
+	for i := 0; i < len(a) && i < len(b); i++ {
+		if a[i] != b[i] {
+			return a[i] < b[i]
+		}
+	}
+	return len(a) < len(b)
 }
 
 func ccDumpHistory(init map[string]int, ops []*ccOp) {
